@@ -230,6 +230,14 @@ partial def walk (isMap : String → Option Bool) (depth : Nat) (a : Alias) : No
       let a := walk isMap depth a r
       let a := match r, l with
         | .fn _ params _ _ _ body, .ident n => { a with fns := (n, (params, body)) :: a.fns }
+        -- `h = mk()` where the known function `mk` ends in a function literal: `h` is that closure
+        | .call (.ident g) _, .ident n =>
+          match a.fns.lookup g with
+          | some (_, .stmts body) =>
+            match body.getLast? with
+            | some (.fn _ params _ _ _ inner) => { a with fns := (n, (params, inner)) :: a.fns }
+            | _ => a
+          | _ => a
         | _, _ => a
       match l with
       | .ident n => a.bind n (sources a isMap r)
